@@ -217,6 +217,7 @@ def run_check(pid, tier, seed, jobs):
     from . import selftest
     st_ok, st_info = selftest.quick()
     plan = shard_plan(mod, tier, seed)
+    env.sweep_stale_scratch()
     tmpd = env.scratch()
     procs, results = [], []
     pending = list(plan)
@@ -229,6 +230,7 @@ def run_check(pid, tier, seed, jobs):
             e = dict(os.environ)
             e.setdefault("PYTHONHASHSEED", "0")
             e["VERIF_SEED"] = str(seed)
+            e["TMPDIR"] = tmpd  # shard scratch lives inside the parent's: a killed shard leaves nothing behind
             e.update({k: str(v) for k, v in envo.items()})
             cmd = [sys.executable, os.path.join(HERE, "check"), pid, "--tier", tier, "--shard", f"{i}/{n}",
                    "--out", out, "--params", json.dumps(params)]
